@@ -291,12 +291,11 @@ func main() {
 		fs := flag.NewFlagSet("worker", flag.ExitOnError)
 		pkg := fs.String("pkg", "", "")
 		hdir := fs.String("harness", "", "")
-		funcs := fs.String("funcs", "", "")
 		timeout := fs.Int("timeout-ms", 60000, "")
 		seed := fs.Int("seed", 0, "")
 		slv := fs.String("solver", "z3", "")
 		fs.Parse(os.Args[2:])
-		os.Exit(cmdWorker(runConfig{Pkg: *pkg, HarnessDir: *hdir, Funcs: []string{*funcs}, TimeoutMs: *timeout, Seed: *seed, Solver: *slv}))
+		os.Exit(cmdWorker(runConfig{Pkg: *pkg, HarnessDir: *hdir, TimeoutMs: *timeout, Seed: *seed, Solver: *slv}))
 	case "pinned":
 		os.Exit(cmdPinned(os.Args[2:]))
 	case "check":
